@@ -3,9 +3,12 @@
 (* Stage A for C09 on a small curve (Big = FALSE, toy HMAC, I_L reduced to *)
 (* 0..CN+3): case-style model.  Cases are successors of "group" states so  *)
 (* that all workers evaluate them; the successor relation is split into    *)
-(* named actions by OUTCOME CLASS, so that -coverage shows that the        *)
-(* branches "I_L >= n", "child key = 0 / child point = infinity" and       *)
-(* "invalid master" are really taken (vacuity guard).                      *)
+(* named actions by OUTCOME CLASS, and the Census "invariant" prints the   *)
+(* class of every case, so that the harness can require that the branches  *)
+(* "I_L >= n", "child key = 0 / child point = infinity", "invalid master"  *)
+(* and every rejection reason are really taken (vacuity guard; TLC's own   *)
+(* -coverage is not usable here: instrumenting the EC recursion exhausts   *)
+(* the heap).                                                              *)
 (*   ckd     (k, c, i)  all private keys x 3 chain codes x boundary indices *)
 (*   master  seed       master key rule                                     *)
 (*   xk      extended key x index: bookkeeping, xkey-level commutation,     *)
@@ -164,6 +167,13 @@ RejectionTable == c.k = "deser" /\ Table(DX, c.m) # "skip" =>
     /\ DeserXKey(p).ok => SerXKey(DeserXKey(p).v) = p                      \* accepted payloads are canonical
     /\ c.m = "pub-parity" => DeserXKey(p).v = [DX EXCEPT !.key = Neg(DX.key)]
     /\ c.m = "ver-other-net" => DeserXKey(p).v = [DX EXCEPT !.net = IF DX.net = "main" THEN "test" ELSE "main"]
+
+(* ---- census of outcome classes (vacuity guard) ---- *)
+Class == CASE c.k = "ckd"    -> CkdClass(c)
+           [] c.k = "master" -> (IF MasterIL(c.s) = 0 THEN "il-zero" ELSE IF MasterIL(c.s) >= CN THEN "il-ge-n" ELSE "ok")
+           [] c.k = "deser"  -> Table(DX, c.m)
+           [] OTHER          -> "any"
+Census == c.k # "group" => PrintT(<<"B", c.k, Class>>)
 
 (* ---- Base58Check level (toy SHA-256) ---- *)
 StrX == IF c.pub THEN NeuterX(c.x) ELSE c.x
